@@ -93,6 +93,14 @@ class HistoryRun:
                 harness([{"op": "srv_freq_bin", "path": os.path.join(ud, "frequency.bin"), "entries": [[c, w, n, t] for c, w, n, t in self.init_freq_abs]}])
             srv_ = Server(d, user_dir=ud, save_seconds=1)
             if not srv_.up:
+                # one more attempt before this is reported (a transient start failure of the test machinery must not look like a defect)
+                first_log = srv_.logtext()
+                srv_.stop()
+                time.sleep(0.5)
+                srv_ = Server(d, user_dir=ud, save_seconds=1)
+                if srv_.up:
+                    log("note: a server start needed a second attempt; first log:", first_log[-300:])
+            if not srv_.up:
                 self.problems.append(("server does not start", srv_.logtext()))
                 return self
             sids = {}
@@ -185,6 +193,19 @@ class HistoryRun:
                 if st != "ok":
                     self.problems.append(("Verif.Dump is not answered at the end of the history (a mutex is poisoned?)", {"status": st, "detail": self.final}))
                     self.final = None
+                else:
+                    # the live standard dictionary for the readings this history is about (registered readings and their stems, base readings,
+                    # converted inputs and their prefixes): words in the engine's order, and whether the trie knows the reading
+                    rds = []
+                    for rq in self.requests:
+                        if rq["kind"] == "register":
+                            rds += [rq["reading"], rq["reading"][:-1], rq["reading"][:-2]]
+                        elif rq["kind"] in ("convert", "proper"):
+                            rds += [rq["input"][:k] for k in range(1, min(len(rq["input"]), 6) + 1)]
+                    rds += [e["reading"] for e in self.base["std"]]
+                    rds = [r for r in dict.fromkeys(rds) if r and "\n" not in r][:80]
+                    stw, ws = srv_.call("Verif.Words", {"readings": rds})
+                    self.final["words"] = ws if stw == "ok" else None
         finally:
             if srv_ is not None:
                 srv_.stop()
@@ -289,7 +310,15 @@ Definition with_freq (s : sstate) (f : ftable) : sstate :=
      s_sessions := s_sessions s; s_next := s_next s; s_queue := s_queue s |}.
 Record hcase := { h_alpha : list N; h_std : list entry; h_anc : list entry; h_tankan : list entry; h_init_freq : ftable;
                   h_reqs : list request; h_expect : list expect;
-                  h_final_freq : ftable; h_final_user : list entry; h_final_sessions : nat }.
+                  h_final_freq : ftable; h_final_user : list entry; h_final_sessions : nat;
+                  h_final_words : list (str * (list (str * speech) * bool)) }.
+Fixpoint ws_eqb (a b : list (str * speech)) : bool :=
+  match a, b with [], [] => true | x :: a', y :: b' => str_eqb (fst x) (fst y) && speech_eqb (snd x) (snd y) && ws_eqb a' b' | _, _ => false end.
+Definition words_ok (fin : sstate) (e : str * (list (str * speech) * bool)) : bool :=
+  let '(r, (ws, intrie)) := e in
+  ws_eqb (map (fun w => (w_word w, w_speech w)) (filter (fun w => str_eqb (w_reading w) r) (s_std fin))) ws
+  && Bool.eqb (existsb (str_eqb r) (s_keys fin)) intrie.
+
 Definition hcheck (h : hcase) : bool :=
   match words_of (h_std h), words_of (h_anc h), words_of (h_tankan h) with
   | Ok s, Ok a, Ok t =>
@@ -298,6 +327,7 @@ Definition hcheck (h : hcase) : bool :=
     | Ok (fin, resps) =>
       resps_eqb resps (h_expect h) && ftable_eqb (s_freq fin) (h_final_freq h) && entries_eqb (s_user fin) (h_final_user h)
       && Nat.eqb (length (s_sessions fin)) (h_final_sessions h)
+      && forallb (words_ok fin) (h_final_words h)
     | _ => false
     end
   | _, _, _ => false
@@ -321,10 +351,15 @@ def coq_history(hr):
         return None
     ft = clist(["(%s, %s, ((%d)%%Z, (%d)%%Z))" % (CTX_COQ[f[0]["kind"]], cstr(f[1]), f[2], f[3]) for f in hr.final["frequencies"]])
     b = hr.base
+    fwl = []
+    for it in (hr.final.get("words") or []):
+        if all(coq_speech(w[1]) is not None for w in it["words"]):
+            fwl.append("(%s, (%s, %s))" % (cstr(it["reading"]), clist(["(%s, %s)" % (cstr(w[0]), coq_speech(w[1])) for w in it["words"]]), cbool(it["in_trie"])))
+    fw = clist(fwl)
     ift = clist(["(%s, %s, ((%d)%%Z, (%d)%%Z))" % (CTX_COQ[c["kind"]], cstr(w), n, t) for c, w, n, t in hr.init_freq_abs])
-    return (("{| h_alpha := %s; h_std := %s; h_anc := %s; h_tankan := %s; h_init_freq := " + ift.replace("%", "%%") + "; h_reqs := %s; h_expect := %s; h_final_freq := %s; h_final_user := %s; h_final_sessions := %d%%nat |}")
+    return (("{| h_alpha := %s; h_std := %s; h_anc := %s; h_tankan := %s; h_init_freq := " + ift.replace("%", "%%") + "; h_reqs := %s; h_expect := %s; h_final_freq := %s; h_final_user := %s; h_final_sessions := %d%%nat; h_final_words := %s |}")
             % (cstr(ALPHABET), clist([coq_entry(e) for e in b["std"]]), clist([coq_entry(e) for e in b["anc"]]), clist([coq_entry(e) for e in b["tankan"]]),
-               clist(reqs), clist(exps), ft, clist([coq_entry(u) for u in users]), hr.final["sessions"]))
+               clist(reqs), clist(exps), ft, clist([coq_entry(u) for u in users]), hr.final["sessions"], fw))
 
 
 def model_histories(res, name, runs):
